@@ -176,6 +176,15 @@ def parse_counterexample(output):
 # ---------------------------------------------------------------------------------------------------------------------
 # TLC
 
+def _die_with_parent():
+    """a TLC child must not outlive a killed check (PR_SET_PDEATHSIG = 1, SIGKILL = 9)"""
+    try:
+        import ctypes
+        ctypes.CDLL('libc.so.6', use_errno=True).prctl(1, 9)
+    except Exception:
+        pass
+
+
 class TLCResult(dict):
     __getattr__ = dict.get
 
@@ -215,7 +224,8 @@ def run_tlc(spec_dir, cfg, module=None, *, workers=None, simulate=None, depth=No
         e.update({k: str(v) for k, v in env.items()})
     t0 = time.time()
     try:
-        p = subprocess.run(cmd, cwd=spec_dir, env=e, capture_output=True, text=True, timeout=timeout)
+        p = subprocess.run(cmd, cwd=spec_dir, env=e, capture_output=True, text=True, timeout=timeout,
+                           preexec_fn=_die_with_parent)
         out, rc, timed_out = p.stdout + p.stderr, p.returncode, False
     except subprocess.TimeoutExpired as ex:
         out = (ex.stdout or b'').decode(errors='replace') if isinstance(ex.stdout, bytes) else (ex.stdout or '')
